@@ -74,7 +74,7 @@ func ReadBucketMeta(name string) (bucketMeta *BucketMeta, err error) {
 	if err := vfs("create", name, -1, nil); err != nil {
 		return nil, err
 	}
-	fd, err := os.OpenFile(name, os.O_CREATE|os.O_RDWR, 0644)
+	fd, err := os.OpenFile(name, os.O_RDONLY, 0644)
 	defer fd.Close()
 	if err != nil {
 		return
